@@ -5,7 +5,7 @@ from collections import deque
 from typing import *
 
 from hippolyzer.lib.base.message.circuit import Circuit
-from hippolyzer.lib.base.message.message import Message
+from hippolyzer.lib.base.message.message import Block, Message
 from hippolyzer.lib.base.message.msgtypes import PacketFlags
 from hippolyzer.lib.base.network.transport import Direction
 
@@ -79,6 +79,7 @@ class ProxiedCircuit(Circuit):
 
     def _rewrite_packet_ack(self, message: Message, reverse_injections):
         new_blocks = []
+        had_blocks = bool(message["Packets"])
         for block in message["Packets"]:
             packet_id = block["ID"]
             # This is an ACK for one the proxy injected, don't confuse
@@ -88,9 +89,16 @@ class ProxiedCircuit(Circuit):
             block["ID"] = reverse_injections.get_original_id(packet_id)
             new_blocks.append(block)
 
-        # Sending a PacketAck with nothing in it would be suspicious
-        if not new_blocks:
-            return False
+        # Every block was an ACK for a packet the proxy injected. A PacketAck that was
+        # empty to begin with is just passed on like any other message.
+        if had_blocks and not new_blocks:
+            # Sending a PacketAck with nothing left in it would be suspicious
+            if not message.acks:
+                return False
+            # Only the (already rewritten) appended acks are left. The original blocks must not
+            # go out, they all ack injected packets. Carry the appended acks in the body instead.
+            new_blocks = [Block("Packets", ID=x) for x in message.acks]
+            message.acks = ()
         message["Packets"] = new_blocks
         return True
 
